@@ -24,7 +24,8 @@ ASSUMPTIONS = [
     "what follows the exit script at an episode end is judged by the C03 position relation (the printer stands where the program says after the end); script lines are marker commands that move nothing",
 ]
 
-POOL = ["M204", "M205", "M73", "M117", "G4", "M106", "M900", "M104", "M220"]
+POOL = ["M204", "M205", "M73", "M117", "G4", "M106", "M900", "M104", "M220", "T"]     # ("T": every tool change, as OctoPrint reports it)
+NOMERGE = ("M117", "T")
 ENTER_LINES = ["M118 E1 enter-a", "M300 S440 P50", "@enterExcludedRegion", "M117 Excluding", "M118 path C:\\"]
 EXIT_LINES = ["M118 E1 exit-a", "M300 S880 P20", "@exitExcludedRegion", "M117 Printing again"]
 
@@ -35,6 +36,8 @@ def fmtnum(v):
 
 @st.composite
 def instance(draw, code):
+    if code == "T":
+        return "T%d" % draw(st.integers(0, 3))
     n = draw(st.sampled_from([0, 1, 5, 25, 50, 100, 500, 1500, 0.02, 0.5, 7.25, 1200.5]))
     m = draw(st.sampled_from([0, 2, 8, 40, 800, 0.08, 3.5]))
     shape = draw(st.integers(0, 2))
@@ -84,7 +87,7 @@ def cases(draw):  # pylint: disable=too-many-locals,too-many-branches,too-many-s
     codes = draw(st.lists(st.sampled_from(POOL), unique=True, min_size=2, max_size=7))
     ext = {}
     for c in codes:
-        modes = ["exclude", "first", "last", "merge"] if c != "M117" else ["exclude", "first", "last"]
+        modes = ["exclude", "first", "last", "merge"] if c not in NOMERGE else ["exclude", "first", "last"]
         ext[c] = draw(st.sampled_from(modes))
     enter = draw(st.lists(st.sampled_from(ENTER_LINES), unique=True, max_size=3))
     exit_ = draw(st.lists(st.sampled_from(EXIT_LINES), unique=True, max_size=3))
@@ -117,7 +120,7 @@ def cases(draw):  # pylint: disable=too-many-locals,too-many-branches,too-many-s
             if len(codes) >= 2 and draw(st.integers(0, 4)) == 0:
                 # two different codes with byte-identical parameter text back to back, then one of them again
                 ca, cb = draw(st.permutations(codes))[:2]
-                if "M117" not in (ca, cb):
+                if "M117" not in (ca, cb) and "T" not in (ca, cb):
                     v = draw(st.sampled_from([500, 1000, 8]))
                     prog += [["g", "%s S%d" % (ca, v)], ["g", "%s S%d" % (cb, v)], ["g", "%s T%d" % (cb, v + 20)]]
             if draw(st.integers(0, 40)) == 0:
@@ -127,7 +130,7 @@ def cases(draw):  # pylint: disable=too-many-locals,too-many-branches,too-many-s
                 for q in range(nlong):
                     if q % 11 == 3 or (q % 500) > 480:
                         c = codes[(q // 3) % len(codes)]
-                        prog.append(["g", ("%s L%d" % (c, q)) if c == "M117" else ("%s S%d" % (c, q))])
+                        prog.append(["g", ("%s L%d" % (c, q)) if c == "M117" else (("T%d" % (q % 5)) if c == "T" else ("%s S%d" % (c, q)))])
                     else:
                         prog.append(["g", "G1 X%s Y%s" % (gen.fmt(tx + 0.001 * (q % 40)), gen.fmt(ty + 0.001 * (q // 40)))])
             end = draw(st.sampled_from(["out", "out", "disable", "hook", "newprint", "stay", "delete_then_out"]))
@@ -147,7 +150,7 @@ def cases(draw):  # pylint: disable=too-many-locals,too-many-branches,too-many-s
                     # between two episodes the user re-assigns the modes of the configured codes (same codes, other modes)
                     ext = dict(ext)
                     for c in codes:
-                        ext[c] = draw(st.sampled_from(["exclude", "first", "last", "merge"] if c != "M117" else ["exclude", "first", "last"]))
+                        ext[c] = draw(st.sampled_from(["exclude", "first", "last", "merge"] if c not in NOMERGE else ["exclude", "first", "last"]))
                     if draw(st.booleans()):
                         # ... or deletes a row / configures a code that has been passing through so far
                         gone = draw(st.sampled_from(codes))
@@ -241,6 +244,13 @@ def run_case(case, strict=False):  # pylint: disable=unused-argument
                             "prog": [i[1] if i[0] == "g" else i for i in case["prog"]]}}
 
 
+def code_of(rd):
+    """The code a command is configured under: its G/M code, or "T" for every tool change."""
+    if rd is None:
+        return None
+    return "T" if rd.code[0] == "T" else rd.code
+
+
 def check_trace(tr, ext, enter, exit_):  # pylint: disable=too-many-branches,too-many-locals,too-many-statements
     """The C06 reference model applied to a trace (also used by C15)."""
     out = asserts.exceptions(tr)
@@ -265,7 +275,7 @@ def check_trace(tr, ext, enter, exit_):  # pylint: disable=too-many-branches,too
         if not it.active_before:
             continue
         rd = it.u_step.read if (it.kind == "g" and it.u_step is not None) else None
-        code = rd.code if rd is not None else None
+        code = code_of(rd)
         configured = code in ext and code not in ("G0", "G1", "G2", "G3", "G10", "G11", "G20", "G21", "G28", "G90", "G91", "G92", "M206")
         # count script emissions anywhere
         for ln in enter:
@@ -299,7 +309,7 @@ def check_trace(tr, ext, enter, exit_):  # pylint: disable=too-many-branches,too
                 # entering move itself retracts - nothing that touches the extruder (a retraction out of nowhere)
                 for cmd in it.out[len(enter):]:
                     r2 = gread.read(cmd) if isinstance(cmd, str) else None
-                    if cmd in enter or cmd in exit_ or (r2 is not None and (r2.code in ext or r2.has("E") or r2.code in ("G10", "G11"))):
+                    if cmd in enter or cmd in exit_ or (r2 is not None and (code_of(r2) in ext or r2.has("E") or r2.code in ("G10", "G11"))):
                         out.append(F("c06_enter_script_extra", it, "episode opens with %r: %r follows the enter script %r although the entering move does not retract" % (it.out, cmd, enter)))
                         break
             if it.kind == "g" and it.u_step is not None and it.u_step.dfil < 0:
@@ -327,7 +337,7 @@ def check_trace(tr, ext, enter, exit_):  # pylint: disable=too-many-branches,too
             rest = it.out[n + len(exit_):]
             for cmd in rest:
                 r2 = gread.read(cmd)
-                if (r2 is not None and r2.code in ext) or cmd in exit_ or (cmd in enter and cmd != it.cmd):
+                if (r2 is not None and code_of(r2) in ext) or cmd in exit_ or (cmd in enter and cmd != it.cmd):
                     out.append(F("c06_leak", it, "%r appears after the deferred/exit-script prefix of the episode end: %r" % (cmd, it.out)))
             if len(pending) >= 2 and len(modes_seen - {"exclude"}) >= 2:
                 nontrivial = True
@@ -342,7 +352,7 @@ def check_trace(tr, ext, enter, exit_):  # pylint: disable=too-many-branches,too
                 if cmd == it.cmd:
                     continue
                 r2 = gread.read(cmd) if isinstance(cmd, str) else None
-                if (r2 is not None and r2.code in ext) or cmd in exit_ or cmd in enter:
+                if (r2 is not None and code_of(r2) in ext) or cmd in exit_ or cmd in enter:
                     out.append(F("c06_leak", it, "%r emitted outside an episode boundary: %r" % (cmd, it.out)))
         if it.kind == "hook" and not it.closing and it.raw is not None:
             out.append(F("c06_hook_contributes", it, "script hook contributed %r although no episode was open / other script" % (it.raw,)))
